@@ -184,6 +184,20 @@ pub fn make_variant(base: &History, choices: &[u8]) -> Variant {
             }
             other => out.push(other.clone()),
         }
+        // a detached clone that is never used: `let c = h.clone().untracked(); drop(c);` - flags set on a clone never
+        // change the original, and an extra handle never changes a result
+        if cur > 0 && next(6) {
+            // only handles the base program still names later (so they are alive here, whatever consumed or re-bound others)
+            let live: Vec<usize> = (0..cur).filter(|h| !dead[*h] && last_use[*h] > i).collect();
+            if !live.is_empty() {
+                let h = live[(i * 7 + cur) % live.len()];
+                out.push(Step::Clone { h: map[h] });
+                out.push(Step::Flag { h: nslots, how: if i % 2 == 0 { FlagOp::Untracked } else { FlagOp::Stop } });
+                out.push(Step::Drop { h: nslots });
+                nslots += 1;
+                n_rewrites += 1;
+            }
+        }
         // drop handles the program no longer names (their observers stay, to read results at the end)
         for h in 0..cur {
             if !dead[h] && last_use[h] == i && i + 1 < base.steps.len() && next(2) {
@@ -221,6 +235,9 @@ impl Case12 {
         let e = |k: &str, d: String| Err((k.to_string(), d));
         let v = make_variant(&self.base, &self.choices);
         let mut p = Exec::new();
+        // whether the caller keeps another handle on a seed is one more "extra handle": the base program hands its
+        // seeds over as their only owner, the variant keeps a clone and a view of each alive across the pass
+        p.keep_seeds = false;
         for (i, s) in self.base.steps.iter().enumerate() {
             if let Err(pn) = p.step(s) {
                 return e("discard", format!("base program panicked at step {}: {}", i, pn));
